@@ -7,6 +7,7 @@ import (
 	"math"
 	"math/rand"
 	"os"
+	"os/exec"
 	"path/filepath"
 	"strconv"
 	"strings"
@@ -658,6 +659,19 @@ func init() {
 		}
 		c.AddExtra("symbolic_trajectories", ntraj)
 		c.AddExtra("training_steps_checked", nsteps)
+		// unbounded: TLAPS proves DeadWhileStale inductive for TrainProto (any parameter set, any number of steps)
+		if b, err := os.ReadFile(filepath.Join(run.VerifDir, "spec", "proofs", "TrainProtoProofs.tla")); err == nil {
+			os.WriteFile(filepath.Join(c.Work, "TrainProtoProofs.tla"), b, 0o644)
+			cmd := exec.Command("timeout", "300", "tlapm", "--threads", "8", "TrainProtoProofs.tla")
+			cmd.Dir = c.Work
+			out, _ := cmd.CombinedOutput()
+			if !strings.Contains(string(out), "obligations proved") || strings.Contains(string(out), "failed") {
+				// an auxiliary, unbounded argument: a prover time-out does not decide anything about the code
+				c.AddExtra("tlaps", "TrainProtoProofs.tla was NOT discharged in this run: "+run.Tail(string(out), 3))
+			} else {
+				c.AddExtra("tlaps", "TrainProtoProofs.tla: TypeOK /\\ DeadWhileStale is an inductive invariant of TrainProto (all obligations proved) - a live forward pass never coexists with a spent parameter, for any parameter set and any number of steps")
+			}
+		}
 		// code -> spec: long random protocols on real models of 1..3 layers, validated by TLC
 		np, ns := 40, 25
 		if c.Thorough {
